@@ -230,6 +230,26 @@ def build_request(uni, in_prot, rclass, rng):
         return wsdl_request()
     if kind == 'envelope':
         return _bad_envelope(uni, in_prot, rclass[1])
+    if kind == 'verb':
+        # a valid document sent with the wrong HTTP verb
+        r = encode_request(uni, in_prot, 'multi', {'a': 3})
+        if r.verb == 'GET':
+            # HttpRpc: POST/PUT/PATCH bodies need werkzeug (not installed
+            # here), so only body-less verbs are used
+            r.verb = {'GET': 'DELETE', 'PUT': 'OPTIONS'}.get(rclass[1],
+                                                             rclass[1])
+        else:
+            r.verb = rclass[1]
+        r.label = ('multi', 'verb')
+        return r
+    if kind == 'charset':
+        # a valid document under a Content-Type that lies about the charset
+        r = encode_request(uni, in_prot, 'multi', {'a': 3})
+        if r.ctype is not None:
+            base = r.ctype.split(';')[0]
+            r.ctype = '%s; charset=%s' % (base, rclass[1])
+        r.label = ('multi', 'charset')
+        return r
     raise ValueError(rclass)
 
 
